@@ -107,6 +107,7 @@ func getServerRoles(P *Program) (*serverRoles, []string) {
 	} else {
 		missing = append(missing, fmt.Sprintf("TriggerDecision(%d candidates)", len(cs)))
 	}
+	P.MarkAnchor(sr.StringMatcher, sr.RuleMatcher, sr.Trigger)
 	return sr, missing
 }
 
